@@ -94,10 +94,6 @@ class Rules(FDE.Rules):
         Helpers = (NodeCount, NodesWorlds, WorldIndex)
 
         def _get_node_targets(self, node, branch, /):
-            # Only count least-applied-to nodes
-            if not self[NodeCount].isleast(node, branch):
-                return
-
             s = self.sentence(node)
             si = s.lhs
             if self.new_negated(self.negated):
